@@ -28,7 +28,16 @@ EXPLANATION = (
     "in that way); (R5) getSize of each format is the sum of exactly the word "
     "counts its layout stores: len(coords) for C, ceil(len(coords) / "
     "bits_per_word) mask words for B (a recognised ceiling-division idiom), "
-    "len(occupancies), len(payloads).")
+    "len(occupancies), len(payloads); (R10) the encodeFiber siblings share one "
+    "skeleton (child to codec.encode one level down, running sum of child "
+    "occupancies from 0 under isinstance(<sum>, int), stored as segment end, "
+    "next_fmt remembered), every level test separates exactly the leaf rank "
+    "from the ranks above, per-rank tables are read at depth / depth + 1, the "
+    "bit mask is [0] * dim_len with ones at stored coordinates; (R11) "
+    "Codec.encode keeps rank depth in slot depth + 1; (R12) Bitvector's "
+    "setupSlice / nextInSlice agree with the base class they override and "
+    "with the encoder's present-bit literal; (R13) the lookups' short paths "
+    "are the lower-bound answers.")
 RULE = "one obligation per format x clause"
 
 FORMATS = {"U": "Uncompressed", "C": "CoordinateList", "B": "Bitvector"}
@@ -44,6 +53,10 @@ def run(ctx):
     ctx.guard(r7_levels)
     ctx.guard(r8_mirror)
     ctx.guard(r9_state_has_writer)
+    ctx.guard(r10_siblings)
+    ctx.guard(r11_slots)
+    ctx.guard(r12_slice_api)
+    ctx.guard(r13_short_paths)
 
 
 # -- R9: every piece of state a codec / format method reads has a writer -----
@@ -651,3 +664,531 @@ def r8_mirror(ctx):
                                    "encoded fiber object" if side == "out"
                                    else "output array"))
     ctx.floor("C20.R8", n, 12, "mirrored array writes in the encoders")
+
+
+# -- R10: the three encodeFiber siblings follow one segment-end protocol ------------
+
+def _level_form(e, dname, rname):
+    """k * (depth - len(ranks)) + c as (k, c) for an integer expression over
+    `depth`, `len(ranks)` and constants; None otherwise."""
+    if isinstance(e, ast.Constant) and isinstance(e.value, int) and \
+            not isinstance(e.value, bool):
+        return (0, 0, e.value)
+    if isinstance(e, ast.Name) and e.id == dname:
+        return (1, 0, 0)
+    if isinstance(e, ast.Call) and text(e.func) == "len" and len(e.args) == 1 and \
+            text(e.args[0]) == rname:
+        return (0, 1, 0)
+    if isinstance(e, ast.BinOp) and isinstance(e.op, (ast.Add, ast.Sub)):
+        a, b = _level_form(e.left, dname, rname), _level_form(e.right, dname, rname)
+        if a is None or b is None:
+            return None
+        sg = 1 if isinstance(e.op, ast.Add) else -1
+        return tuple(x + sg * y for x, y in zip(a, b))
+    return None
+
+
+def _level_test(cmp_, dname, rname):
+    """Truth of a comparison of the level with the number of ranks for
+    depth - len(ranks) = -1 (the leaf rank) and -2, -3, -6 (ranks above it):
+    (leaf value, [values above]) or None when it is not such a comparison."""
+    if not (isinstance(cmp_, ast.Compare) and len(cmp_.ops) == 1):
+        return None
+    a = _level_form(cmp_.left, dname, rname)
+    b = _level_form(cmp_.comparators[0], dname, rname)
+    if a is None or b is None:
+        return None
+    d, l, c = (x - y for x, y in zip(a, b))
+    if d == 0 or d != -l:
+        return None
+    import operator as _op
+    fn = {ast.Lt: _op.lt, ast.LtE: _op.le, ast.Gt: _op.gt, ast.GtE: _op.ge,
+          ast.Eq: _op.eq, ast.NotEq: _op.ne}.get(type(cmp_.ops[0]))
+    if fn is None:
+        return None
+    val = lambda e_: fn(d * e_ + c, 0)
+    return val(-1), [val(-2), val(-3), val(-6)]
+
+
+def r10_siblings(ctx):
+    """U, C and B encode a fiber with the same skeleton: they tell the leaf
+    rank from the ranks above it, hand each child to codec.encode one level
+    down, and keep the running sum of the children's occupancies, which is
+    what the rank stores as segment ends.  Every sibling must have every
+    element of that skeleton (a cross-check of implementations of one
+    interface), and each test of the level must split the levels at the leaf
+    rank and nowhere else."""
+    n_lvl = 0
+    have = {}
+    for d, cname in FORMATS.items():
+        ci = _cls(ctx, cname)
+        f = ci.methods.get("encodeFiber")
+        if f is None:
+            continue
+        ps = f.all_param_names()
+        dname = "depth" if "depth" in ps else None
+        rname = "ranks" if "ranks" in ps else None
+        ctx.require(dname and rname, "C20.R10: %s.encodeFiber lost its depth / ranks "
+                    "parameters" % cname)
+        # (a) level tests
+        for c in f.own_nodes():
+            r = _level_test(c, dname, rname)
+            if r is None:
+                continue
+            n_lvl += 1
+            leaf, above = r
+            if len(set(above)) == 1 and above[0] != leaf:
+                ctx.ok("C20.R10", f, c, "level test separates the leaf rank from the "
+                       "ranks above it")
+            else:
+                ctx.bad("C20.R10", f, c, "%s.encodeFiber tests the level with `%s`, "
+                        "which is %s at the leaf rank and %s at the ranks above it: "
+                        "the other level tests of the encoders split exactly at "
+                        "the leaf (depth == len(ranks) - 1); with this one a rank "
+                        "is encoded as the wrong kind (a leaf recursed into, or "
+                        "an inner rank stored as payload values)"
+                        % (cname, text(c), leaf, above))
+        # (b) the skeleton
+        got = {}
+        child = [a for a in f.own_nodes() if isinstance(a, ast.Assign)
+                 and isinstance(a.targets[0], ast.Tuple) and len(a.targets[0].elts) == 2
+                 and isinstance(a.value, ast.Call) and text(a.value.func) == "codec.encode"]
+        if len(child) == 1:
+            occ = text(child[0].targets[0].elts[1])
+            got["child"] = child[0]
+            loop = [a for a in _anc(child[0]) if isinstance(a, (ast.For, ast.While))]
+            # the int case of the update: `if isinstance(S, int): S = S + occ`,
+            # or a helper that makes that split, read under `S is an int`
+            import re as _re
+            from .. import symcase
+
+            def is_int(t):
+                m_ = _re.match(r"^isinstance\((\w+),int\)$", text(t).replace(" ", ""))
+                return True if m_ else None
+            for b in (loop[-1].body if loop else []):
+                for a_ in _walk([b]):
+                    if isinstance(a_, ast.If) and is_int(a_.test):
+                        acc = a_.test.args[0].id
+                        for b2 in a_.body:
+                            v = None
+                            if isinstance(b2, ast.AugAssign) and text(b2.target) == acc and \
+                                    isinstance(b2.op, ast.Add):
+                                v = [acc, text(b2.value)]
+                            elif isinstance(b2, ast.Assign) and text(b2.targets[0]) == acc and \
+                                    isinstance(b2.value, ast.BinOp) and \
+                                    isinstance(b2.value.op, ast.Add):
+                                v = [text(b2.value.left), text(b2.value.right)]
+                            if v is not None and sorted(v) == sorted([acc, occ]):
+                                got["sum"], got["acc"] = b2, acc
+                    elif isinstance(a_, ast.Assign) and isinstance(a_.targets[0], ast.Name) \
+                            and isinstance(a_.value, ast.Call) and \
+                            occ in [text(x) for x in a_.value.args]:
+                        acc = a_.targets[0].id
+                        try:
+                            res = symcase.Evaluator(ctx, is_int).inline_call(f, a_.value, {})
+                        except Exception:
+                            res = None
+                        if res is None and isinstance(a_.value.func, ast.Attribute) and \
+                                text(a_.value.func.value) == "self" and not a_.value.keywords:
+                            # a method inherited from the format base class
+                            hm = _method(ctx, ci, a_.value.func.attr)
+                            h = hm[0] if hm else None
+                            if h is not None and h.node is not None:
+                                ps = list(h.params)
+                                if h.kind == "method":
+                                    ps = ps[1:]
+                                if len(ps) == len(a_.value.args):
+                                    outs = symcase.Evaluator(ctx, is_int).walk(
+                                        h, h.body, dict(zip(ps, a_.value.args)))
+                                    terms = {symcase.norm(o.ret) for o in outs
+                                             if o.returned and not o.opaque and not o.stores}
+                                    if len(terms) == 1 and len(outs) == 1:
+                                        res = outs[0].ret
+                        if isinstance(res, ast.BinOp) and isinstance(res.op, ast.Add) and \
+                                sorted([text(res.left), text(res.right)]) == sorted([acc, occ]):
+                            got["sum"], got["acc"] = a_, acc
+            acc = got.get("acc")
+            if acc and loop:
+                inits = [a for a in f.own_nodes() if isinstance(a, ast.Assign)
+                         and text(a.targets[0]) == acc and not is_within_(a, loop[-1])]
+                okinit = bool(inits) and all(
+                    (isinstance(a.value, ast.Constant) and a.value.value == 0 and
+                     not isinstance(a.value.value, bool)) or
+                    text(a.value).replace(" ", "") in ("[0,0]", "codec.get_start_occ(depth+1)")
+                    for a in inits)
+                if okinit:
+                    got["init"] = inits[0]
+                stored = [c for c in f.own_nodes() if isinstance(c, ast.Call)
+                          and isinstance(c.func, ast.Attribute) and c.func.attr == "append"
+                          and text(c.func.value) == "self.occupancies"
+                          and len(c.args) == 1 and text(c.args[0]) == acc]
+                if stored:
+                    got["stored"] = stored[0]
+        nf = [a for a in f.own_nodes() if isinstance(a, ast.Assign)
+              and text(a.targets[0]) == "self.next_fmt"
+              and pat.inline(ctx, f, a.value).replace(" ", "") == "codec.fmts[depth+1]"]
+        if nf:
+            got["next_fmt"] = nf[0]
+        have[cname] = (f, got)
+    ctx.floor("C20.R10", n_lvl, 8, "level tests of the encoders")
+    parts = [("child", "hands each child to codec.encode and takes (fiber, occupancy) back"),
+             ("sum", "adds the child's occupancy to the running sum when that is an int "
+                     "(`isinstance(<sum>, int)`)"),
+             ("init", "starts the running sum at 0 (or the codec's start value)"),
+             ("stored", "stores the running sum as the segment end"),
+             ("next_fmt", "remembers the format of the rank below (self.next_fmt = "
+                          "codec.fmts[depth + 1])")]
+    for key, what in parts:
+        holders = [c for c, (f, got) in have.items() if key in got]
+        for cname, (f, got) in have.items():
+            if key in got:
+                ctx.ok("C20.R10", f, got[key], "%s %s" % (cname, what),
+                       text_="%s.encodeFiber %s" % (cname, key))
+            else:
+                ctx.bad("C20.R10", f, f.node, "%s.encodeFiber no longer %s%s: the "
+                        "segment ends / sizes this rank stores disagree with what "
+                        "the ranks below it contain"
+                        % (cname, what, (", as %s still do" % " and ".join(holders))
+                           if holders else ""),
+                        text_="%s.encodeFiber %s" % (cname, key))
+    # (d) the codec's per-rank tables are consulted for this rank or the one
+    # below it, nothing else
+    n_tab = 0
+    for cname, (f, got) in have.items():
+        for s_ in f.own_nodes():
+            if isinstance(s_, ast.Subscript) and text(s_.value) in (
+                    "codec.fmts", "codec.format_descriptor"):
+                n_tab += 1
+                ix = text(s_.slice).replace(" ", "")
+                if ix in ("depth", "depth+1"):
+                    ctx.ok("C20.R10", f, s_, "per-rank table read at %s" % ix)
+                else:
+                    ctx.bad("C20.R10", f, s_, "%s.encodeFiber reads `%s`: every other "
+                            "read of the codec's per-rank tables in the encoders is "
+                            "at `depth` or `depth + 1` (this rank, the rank below); "
+                            "this one consults another rank's format (or runs off "
+                            "the end of the descriptor)" % (cname, text(s_)))
+    ctx.floor("C20.R10", n_tab, 8, "per-rank table reads in the encoders")
+    # (c) the bit mask: dim_len zero bits, a one at every stored coordinate
+    f = _cls(ctx, "Bitvector").methods.get("encodeFiber")
+    if f is not None:
+        zero = [a for a in f.own_nodes() if isinstance(a, ast.Assign)
+                and text(a.targets[0]) == "self.coords"
+                and text(a.value).replace(" ", "") in ("[0]*dim_len", "dim_len*[0]")]
+        ones = []
+        for lp in f.own_nodes():
+            if isinstance(lp, ast.For) and isinstance(lp.target, ast.Tuple) and lp.target.elts:
+                cv = text(lp.target.elts[0])
+                for a in _walk(lp.body):
+                    if isinstance(a, ast.Assign) and a in lp.body and \
+                            text(a.targets[0]).replace(" ", "") == "self.coords[%s]" % cv \
+                            and isinstance(a.value, ast.Constant) and a.value.value == 1:
+                        ones.append(a)
+        if zero and ones:
+            ctx.ok("C20.R10", f, zero[0], "mask = dim_len zero bits, set to 1 at "
+                   "each stored coordinate", text_="Bitvector mask")
+        else:
+            ctx.bad("C20.R10", f, f.node, "Bitvector.encodeFiber no longer builds the "
+                    "mask as `[0] * dim_len` with `self.coords[<coordinate>] = 1` for "
+                    "every stored element (unconditionally, in the loop over the "
+                    "fiber): the bits do not mark the stored coordinates",
+                    text_="Bitvector mask")
+
+
+def is_within_(node, container):
+    from ..cfg import is_within
+    return is_within(node, container)
+
+
+def _anc(n):
+    from ..cfg import ancestors
+    return list(ancestors(n))
+
+
+# -- R11: Codec.encode keeps rank `depth` in slot depth + 1 ---------------------------
+
+def r11_slots(ctx):
+    """output_tensor[0] is the root; the encoded fibers of rank `depth` are
+    collected in output_tensor[depth + 1] (names, running prefix sums and
+    the fiber list all index it).  Every subscript of output_tensor in
+    Codec.encode is one of the two; the format consulted is fmts[depth]
+    (fmts[0] for the root, which looks one rank down); the root stores one
+    payload entry."""
+    f = ctx.func("codec/tensor_codec.py:Codec.encode")
+    ot = "output_tensor"
+    ctx.require(ot in f.all_param_names() and "depth" in f.all_param_names(),
+                "C20.R11: Codec.encode lost its output_tensor / depth parameters")
+    root_atom = pat.A("==", "depth", "-1")
+
+    def at_root(node):
+        return root_atom in pat.catoms_of_guards(ctx, f, enclosing_stmt(node))
+    n = 0
+    for s_ in f.own_nodes():
+        if isinstance(s_, ast.Subscript) and text(s_.value) in (ot, "self.fmts"):
+            n += 1
+            ix = text(s_.slice).replace(" ", "")
+            if text(s_.value) == ot:
+                good = (ix == "0" and at_root(s_)) or (ix == "depth+1" and not at_root(s_))
+                want = "0 for the root, depth + 1 for a rank"
+            else:
+                good = (ix == "0" and at_root(s_)) or (ix == "depth" and not at_root(s_))
+                want = "fmts[0] for the root, fmts[depth] for a rank"
+            if good:
+                ctx.ok("C20.R11", f, s_, "slot %s" % ix)
+            else:
+                ctx.bad("C20.R11", f, s_, "Codec.encode indexes `%s` where every "
+                        "other access uses %s: names, prefix sums and the fiber "
+                        "list of a rank then refer to different ranks"
+                        % (text(s_), want))
+    ctx.floor("C20.R11", n, 4, "rank slots indexed in Codec.encode")
+    stores = [c for c in f.own_nodes() if isinstance(c, ast.Call)
+              and isinstance(c.func, ast.Attribute) and isinstance(c.func.value, ast.Subscript)
+              and text(c.func.value.value) == "output" and at_root(c)]
+    if len(stores) == 1 and stores[0].func.attr == "append" and len(stores[0].args) == 1:
+        ctx.ok("C20.R11", f, stores[0], "the root stores one payload entry")
+    else:
+        ctx.bad("C20.R11", f, stores[0] if stores else f.node, "the root case of "
+                "Codec.encode no longer appends exactly one entry (the size of the "
+                "first rank) to the root payload array", text_="root payload entry")
+
+
+
+def _walk(stmts):
+    from ..cfg import walk_own
+    return walk_own(stmts)
+
+
+# -- R12: the scan API of Bitvector agrees with the base class and the encoder ----------
+
+def r12_slice_api(ctx):
+    """Bitvector overrides setupSlice / nextInSlice of CompressionFormat to
+    carry a second handle.  What the two versions share must agree (a
+    cross-check of an override with what it overrides, and of a reader with
+    its writer): the override of setupSlice runs the base set-up with its own
+    arguments; both nextInSlice versions stop on the same slice-limit test
+    and count a returned handle once; the scan stops at the literal the
+    encoder stores for a present coordinate; the (coords, payloads) handle
+    pair is built in the constructor's parameter order."""
+    bv = _cls(ctx, "Bitvector")
+    base = [ci for k, ci in ctx.prog.classes.items()
+            if ci.name == "CompressionFormat" and k.startswith("codec/")]
+    ctx.require(base, "C20.R12: CompressionFormat vanished")
+    base = base[0]
+    ctx.consulted.add(base.module.rel)
+    # (a) chaining
+    ss = bv.methods.get("setupSlice")
+    if ss is not None and ss.cls is bv:
+        want = [p_ for p_ in ss.params[1:]]
+        chain = [c for c in ss.own_nodes() if isinstance(c, ast.Call)
+                 and isinstance(c.func, ast.Attribute) and c.func.attr == "setupSlice"
+                 and (text(c.func.value).startswith("super(") or
+                      text(c.func.value) == "CompressionFormat")]
+        good = False
+        for c in chain:
+            args = [text(a) for a in c.args]
+            if text(c.func.value) == "CompressionFormat":
+                args = args[1:]
+            kw = {k.arg: text(k.value) for k in c.keywords}
+            if args == want[:len(args)] and all(kw.get(p_, p_) == p_ for p_ in want[len(args):]) \
+                    and len(args) + len(kw) == len(want):
+                good = True
+        if good:
+            ctx.ok("C20.R12", ss, chain[0], "Bitvector.setupSlice runs the base set-up "
+                   "with its own arguments")
+        else:
+            ctx.bad("C20.R12", ss, ss.node, "Bitvector.setupSlice no longer calls the "
+                    "base class's setupSlice(base, bound, max_num) with its own "
+                    "arguments: the counters and limits nextInSlice tests keep the "
+                    "values of the previous scan", text_="Bitvector.setupSlice chaining")
+    # (b) the slice limit test and the count of returned handles
+    nb, nv = base.methods.get("nextInSlice"), bv.methods.get("nextInSlice")
+    ctx.require(nb is not None and nv is not None, "C20.R12: nextInSlice vanished")
+
+    def limit_clauses(f):
+        out = set()
+        for r in pat.returns(f):
+            if r.value is None or text(r.value) == "None":
+                # the test that decides this exit (not what earlier exits left)
+                from ..cfg import parent_block as _pb
+                pb = _pb(r)
+                if pb is None or not isinstance(pb[2], ast.If):
+                    continue
+                for cl in pat.cdnf(ctx, f, _expand_self_calls(ctx, f, pb[2].test),
+                                   pb[3] == "body") or []:
+                    own = frozenset(a for a in cl if any(
+                        isinstance(x, str) and ("num_to_ret" in x or "num_ret_so_far" in x)
+                        for x in a[1:]))
+                    if own:
+                        out.add(own)
+        return out
+    lb, lv = limit_clauses(nb), limit_clauses(nv)
+    if lb and lb == lv:
+        ctx.ok("C20.R12", nv, nv.node, "same slice-limit test as the base class",
+               text_="Bitvector.nextInSlice limit")
+    else:
+        ctx.bad("C20.R12", nv, nv.node, "Bitvector.nextInSlice stops a scan when %s, "
+                "CompressionFormat.nextInSlice when %s: the same max_num gives "
+                "scans of different length (or a comparison with None)"
+                % (sorted(map(sorted, lv)), sorted(map(sorted, lb))),
+                text_="Bitvector.nextInSlice limit")
+    for f in (nb, nv):
+        incs = [a for a in f.own_nodes() if isinstance(a, ast.AugAssign)
+                and text(a.target) == "self.num_ret_so_far"]
+        if len(incs) == 1 and isinstance(incs[0].op, ast.Add) and text(incs[0].value) == "1":
+            ctx.ok("C20.R12", f, incs[0], "a returned handle is counted once",
+                   text_="%s.nextInSlice count" % f.cls.name)
+        else:
+            ctx.bad("C20.R12", f, f.node, "%s.nextInSlice does not count a returned "
+                    "handle exactly once (num_ret_so_far += 1)" % f.cls.name,
+                    text_="%s.nextInSlice count" % f.cls.name)
+    # (c) present-bit literal: writer (encodeFiber) and reader (scan loop)
+    enc = bv.methods.get("encodeFiber")
+    wrote = {a.value.value for a in (enc.own_nodes() if enc else [])
+             if isinstance(a, ast.Assign) and isinstance(a.targets[0], ast.Subscript)
+             and text(a.targets[0].value) == "self.coords"
+             and isinstance(a.value, ast.Constant)}
+    read = []
+    for w in nv.own_nodes():
+        if isinstance(w, (ast.While, ast.If)):
+            for t, pol in _flat_conj(w.test):
+                p_ = pat.cmp_raw(t, pol)
+                if p_ and p_[1].startswith("self.coords[") and p_[0] in ("!=", "=="):
+                    # `while bit != W` keeps scanning; `if bit == W` is a find
+                    want_op = "!=" if isinstance(w, ast.While) else "=="
+                    read.append(("!=" if p_[0] == want_op else "==", p_[2], w))
+    if len(wrote) == 1 and read and all(op == "!=" and lit == repr(next(iter(wrote)))
+                                        for op, lit, _w in read):
+        ctx.ok("C20.R12", nv, read[0][2], "the scan skips while the bit is not the "
+               "literal the encoder stores (%r)" % next(iter(wrote)),
+               text_="Bitvector present bit")
+    else:
+        ctx.bad("C20.R12", nv, read[0][2] if read else nv.node, "the encoder marks a "
+                "stored coordinate with %s, the scan of nextInSlice skips while the "
+                "bit %s: the scan stops at absent coordinates"
+                % (sorted(wrote), ", ".join("%s %s" % (o, l) for o, l, _ in read) or
+                   "is not tested"), text_="Bitvector present bit")
+    # (d) TwoHandle(coords, payloads)
+    th = [ci for k, ci in ctx.prog.classes.items()
+          if ci.name == "TwoHandle" and k.startswith("codec/")]
+    if th and th[0].methods.get("__init__") is not None:
+        ps = th[0].methods["__init__"].params[1:]
+        for c in nv.own_nodes():
+            if isinstance(c, ast.Call) and text(c.func) == "TwoHandle" and c.args:
+                names = [a.attr if isinstance(a, ast.Attribute) else
+                         (a.id if isinstance(a, ast.Name) else None) for a in c.args]
+                if all(n_ is None or n_ not in ps or n_ == ps[i_]
+                       for i_, n_ in enumerate(names) if i_ < len(ps)):
+                    ctx.ok("C20.R12", nv, c, "handle pair built in parameter order")
+                else:
+                    ctx.bad("C20.R12", nv, c, "`%s` passes %s for the parameters %s: "
+                            "the coordinate handle and the payload handle are "
+                            "exchanged" % (text(c), names, ps[:len(names)]))
+
+
+def _expand_self_calls(ctx, f, test):
+    """`self.h()` in a test, where h (own or inherited) is one `return <expr>`:
+    the expression."""
+    from ..symcase import clone
+    ci = f.cls
+
+    class X(ast.NodeTransformer):
+        def visit_Call(self, n):
+            self.generic_visit(n)
+            if isinstance(n.func, ast.Attribute) and text(n.func.value) == "self" and \
+                    not n.args and not n.keywords and ci is not None:
+                hm = _method(ctx, ci, n.func.attr)
+                h = hm[0] if hm else None
+                if h is not None and h.node is not None:
+                    body = [b for b in h.body if not (isinstance(b, ast.Expr) and
+                                                      isinstance(b.value, ast.Constant))]
+                    if len(body) == 1 and isinstance(body[0], ast.Return) and \
+                            body[0].value is not None and h.params == ["self"]:
+                        return clone(body[0].value)
+            return n
+    return X().visit(clone(test))
+
+
+def _flat_conj(test):
+    from ..cfg import flatten_conj
+    return flatten_conj(test, True)
+
+
+# -- R13: the short paths of the lookups agree with "first coordinate not below" ------
+
+def r13_short_paths(ctx):
+    """coordToHandle answers without searching in three cases, which must be
+    the lower-bound answer: nothing stored -> None; query above the last
+    stored coordinate -> None; query not above the first -> handle 0.  For
+    the uncompressed format a coordinate is its own handle inside
+    [0, shape) and None outside."""
+    ci = _cls(ctx, "CoordinateList")
+    f = ci.methods.get("coordToHandle")
+    ctx.require(f is not None, "C20.R13: CoordinateList.coordToHandle vanished")
+    q = f.params[1] if len(f.params) > 1 else "coord"
+    loops = [w for w in f.own_nodes() if isinstance(w, ast.While)]
+    want = {pat.A("==", "len(self.coords)", "0"): ("None", "nothing stored"),
+            pat.A("<", "self.coords[-1]", q): ("None", "query above the last coordinate"),
+            pat.A("<=", q, "self.coords[0]"): ("0", "query not above the first coordinate")}
+    neg = {pat.A("!=", "len(self.coords)", "0"), pat.A("<=", q, "self.coords[-1]"),
+           pat.A("<", "self.coords[0]", q)}
+    seen = {}
+    stray = []
+    for r in pat.returns(f):
+        if any(is_within_(r, w) for w in loops):
+            continue
+        if loops and not cfg_can_reach(f, r, loops[0]) and cfg_can_reach(f, loops[0], r):
+            continue        # the answer of the search itself
+        for cl in pat.guard_dnf(ctx, f, r, asserts=False, inline_=True) or []:
+            core = frozenset(cl) - neg
+            val = text(r.value) if r.value is not None else "None"
+            if len(core) == 1 and next(iter(core)) in want:
+                seen.setdefault(next(iter(core)), []).append((val, r))
+            elif core:
+                stray.append((sorted(core), r))
+    for atom, (val, what) in want.items():
+        got = seen.get(atom, [])
+        if got and all(v == val for v, _ in got):
+            ctx.ok("C20.R13", f, got[0][1], "%s -> %s" % (what, val),
+                   text_="coordToHandle short path: " + what)
+        else:
+            ctx.bad("C20.R13", f, got[0][1] if got else f.node,
+                    "CoordinateList.coordToHandle: %s must answer %s without "
+                    "searching; it %s: the lookup no longer returns the handle of "
+                    "the first stored coordinate not below the query"
+                    % (what, val, ("answers %s" % got[0][0]) if got else
+                       "has no such case (the test changed)"),
+                    text_="coordToHandle short path: " + what)
+    for core, r in stray:
+        ctx.bad("C20.R13", f, r, "CoordinateList.coordToHandle answers `%s` without "
+                "searching when %s, which is none of its three short cases"
+                % (text(r.value) if r.value is not None else "None", core))
+    u = _cls(ctx, "Uncompressed").methods.get("coordToHandle")
+    if u is not None:
+        qu = u.params[1] if len(u.params) > 1 else "coord"
+        out_of = {frozenset([pat.A("<", qu, "0")]), frozenset([pat.A("<=", "self.shape", qu)])}
+        got, ident = set(), False
+        for r in pat.returns(u):
+            val = text(r.value) if r.value is not None else "None"
+            cls_ = pat.guard_dnf(ctx, u, r, asserts=False, inline_=True) or []
+            if val == "None":
+                got |= {frozenset(c) for c in cls_}
+            elif val == qu:
+                ident = all(frozenset(c) <= {pat.A("<=", "0", qu), pat.A("<", qu, "self.shape")}
+                            for c in cls_)
+        if got == out_of and ident:
+            ctx.ok("C20.R13", u, u.node, "a coordinate in [0, shape) is its own handle, "
+                   "None outside", text_="Uncompressed.coordToHandle")
+        else:
+            ctx.bad("C20.R13", u, u.node, "Uncompressed.coordToHandle no longer returns "
+                    "the coordinate itself exactly for 0 <= coord < shape and None "
+                    "otherwise (None when %s)" % sorted(map(sorted, got)),
+                    text_="Uncompressed.coordToHandle")
+
+
+def cfg_can_reach(f, a, b):
+    from ..cfg import cfg_of, enclosing_stmt as _es
+    g = cfg_of(f, assert_edges=False)
+    sa_ = a if isinstance(a, ast.stmt) else _es(a)
+    sb_ = b if isinstance(b, ast.stmt) else _es(b)
+    return g.can_reach(sa_, sb_)
+
